@@ -440,7 +440,7 @@ func (p *Path) mergeExec(fn *ssa.Function, args []Value, env []Value, base *smt.
 				if addr == nil {
 					panic(mergeBail{"store through nil"})
 				}
-				if rootedAtGlobal(instr.Addr) {
+				if rootedAtGlobal(instr.Addr) || p.in.globalCells[addr] {
 					panic(mergeBail{"store to global"})
 				}
 				p.logStore(w, deref(instr.Addr.Type()), addr, get(instr.Val), g)
